@@ -71,15 +71,27 @@ def doLine (d : D) (ws : List String) : D × String :=
   if d.hook then
     -- hook_up(): create the state, subscribe, then hand out the collector (handle 0) = `listen` on the initial state
     match ws with
-    | ["hlisten", sc] =>
-        let (s1, r) := stepX s (Op.listen (parseScript sc))
-        ({ d with s := s1, hook := false }, match r with | Res.id l => s!"hlisten L{l}" | _ => "bad-op")
-    | ["hlisten0", sc] =>
-        -- the registration function drops the collector: last handle gone, the destructor's suspend point is flushed
-        let (s1, r) := stepX s (Op.listen (parseScript sc))
-        let s2 := st s1 Op.dropHandle
-        ({ d with s := resumeAll s2 (newRel s1 s2), hook := false, hs := [false] },
-          match r with | Res.id l => s!"hlisten0 L{l}" | _ => "bad-op")
+    | kind :: sc :: toks =>
+        if kind == "hlisten" || kind == "hlisten0" then
+          -- subscribe FIRST, then the registration function runs: its collector calls (suspend points discarded inside
+          -- the listener's own await_suspend = coroutine mode: only queued), then it keeps or drops the collector; the
+          -- queued listener runs when await_suspend has returned
+          let (s1, r) := stepX s (Op.listen (parseScript sc))
+          let keep := (toks.foldl (fun k t => if t == "keep" then true else if t == "drop" then false else k) (kind == "hlisten"))
+          let (s2, q, txt) := toks.foldl (fun (acc : State × List Nat × List String) tok =>
+              match tok.splitOn ":" with
+              | [_, fl, v] =>
+                  let s1 := st acc.1 (Op.emit (fl == "lv") (v.toNat?.getD 0))
+                  let nr := newRel acc.1 s1
+                  (s1, acc.2.1 ++ nr, acc.2.2 ++ [toString nr.length])
+              | _ => acc) (s1, [], [])
+          let s3 := if keep then s2 else st s2 Op.dropHandle
+          let q3 := if keep then q else q ++ newRel s2 s3
+          ({ d with s := resumeAll s3 q3, hook := false, hs := [keep] },
+            match r with
+            | Res.id l => s!"{kind} L{l}" ++ (if txt.isEmpty then "" else " rel=" ++ joinWith "," txt)
+            | _ => "bad-op")
+        else (d, "bad-op")
     | _ => (d, "bad-op")
   else
   match ws with
